@@ -30,9 +30,15 @@ ST = {0: "not started", 1: "running", 2: "failed", 3: "canceled", 4: "finished",
 # ------------------------------------------------------------------------------------------
 
 def coq_step(s):
-    return ("{| deps := %s; cof := %s; cos := %s; rlimit := %d; pre := %s; sfail := %s; repeat := false |}"
+    return ("{| deps := %s; cof := %s; cos := %s; rlimit := %d; pre := %s; sfail := %s; repeat := false; cfails := %d |}"
             % (clist([str(d) for d in s["deps"]]), cbool(s["cof"]), cbool(s["cos"]),
-               s["rlimit"] if s["retry"] else 0, cbool(s["pre"]), cbool(s["sfail"])))
+               s["rlimit"] if s["retry"] else 0, cbool(s["pre"]), cbool(s["sfail"]), coq_cfails(s)))
+
+
+def coq_cfails(s):
+    """cfails: the creation of the step's command fails in its first cfails attempts (-1: in every attempt)"""
+    cf = s.get("cfails", 0)
+    return 1000000 if cf < 0 else cf
 
 
 def coq_event(e):
@@ -40,6 +46,8 @@ def coq_event(e):
         return "EStart %d %s" % (e["i"], cz(e["t"]))
     if e["e"] == "e":
         return "EEnd %d %s %s" % (e["i"], cbool(e.get("ok", False)), cz(e["t"]))
+    if e["e"] == "x" and e["i"] >= 0:      # the attempt ended without a command: its creation failed
+        return "ECreateFail %d %s" % (e["i"], cz(e["t"]))
     return None
 
 
@@ -125,7 +133,7 @@ def py_mon_C01(c):
     state at the instant of the start (snapshot taken inside Run) lets i proceed."""
     evs = c["events"]
     for p, e in enumerate(evs):
-        if e["e"] != "s":
+        if e["e"] not in ("s", "x") or e["i"] < 0:     # an attempt of step i begins (x: the creation of its command fails)
             continue
         for d in c["steps"][e["i"]]["deps"]:
             opn = False
@@ -136,9 +144,9 @@ def py_mon_C01(c):
                     opn = False
             if opn:
                 return "step %d entered Run while dependency %d was executing (event %d)" % (e["i"], d, p)
-            if any(q["i"] == d and q["e"] == "s" for q in evs[p + 1:]):
-                return "dependency %d of step %d was executed again after step %d had started (event %d)" % (d, e["i"], e["i"], p)
-            if not snap_permits(c, d, e["snap"][d]):
+            if any(q["i"] == d and q["e"] in ("s", "x") for q in evs[p + 1:]):
+                return "dependency %d of step %d was attempted again after step %d had started (event %d)" % (d, e["i"], e["i"], p)
+            if e["e"] == "s" and not snap_permits(c, d, e["snap"][d]):
                 return ("step %d entered Run while dependency %d was '%s' (event %d)"
                         % (e["i"], d, ST.get(e["snap"][d], "?"), p))
             if not permits(c, d):
@@ -147,11 +155,12 @@ def py_mon_C01(c):
 
 
 def attempts(c, i):
-    return sum(1 for e in c["events"] if e["e"] == "s" and e["i"] == i)
+    """attempts of step i: Runs of its command and failed creations of that command (an attempt without a command)"""
+    return sum(1 for e in c["events"] if e["e"] in ("s", "x") and e["i"] == i)
 
 
 def outcomes(c, i):
-    return [bool(e.get("ok", False)) for e in c["events"] if e["e"] == "e" and e["i"] == i]
+    return [bool(e.get("ok", False)) if e["e"] == "e" else False for e in c["events"] if e["e"] in ("e", "x") and e["i"] == i]
 
 
 PREK_TEXT = {0: "$VAR=1 (met)", 1: "$VAR unset (unmet)", 2: "`echo 1`=1 (met)", 3: "`echo 0`=1 (unmet)",
@@ -219,6 +228,8 @@ def py_mon_C03(c):
                 opn = True
             elif e["e"] == "e":
                 opn = False
+            elif e["e"] == "x" and opn:
+                return "step %d: a new attempt began while an execution of it was still open" % i
         if len(os_) != a:
             return "step %d: %d executions started, %d completed" % (i, a, len(os_))
         if a > lim + 1:
@@ -229,7 +240,8 @@ def py_mon_C03(c):
             return "step %d gave up after %d attempt(s) with retry limit %d" % (i, a, lim)
         # script: fails k times
         f = s["fails"]
-        want = lim + 1 if (f < 0 or f > lim) else f + 1
+        cf = s.get("cfails", 0)           # the first cf attempts fail at the creation of the command, the next f in Run
+        want = lim + 1 if (f < 0 or cf < 0 or cf + f > lim) else cf + f + 1
         runnable = not (c["dry"] or any(blocks(c, d) for d in s["deps"]) or not s["pre"] or s["sfail"])
         if runnable and a != want:
             return "step %d executed %d time(s), its script and limit call for %d" % (i, a, want)
@@ -262,7 +274,16 @@ def py_mon_C15(c):
             opn.add(i)
         elif e["e"] == "e":
             opn.discard(i)
-            if not e.get("ok", False) and any(q["e"] == "s" and q["i"] == i for q in evs[p + 1:]):
+            if not e.get("ok", False) and any(q["e"] in ("s", "x") and q["i"] == i for q in evs[p + 1:]):
+                waiting[i] = e["t"]
+        elif e["e"] == "x" and i >= 0:     # an attempt whose command could not be created: it held a slot when it began
+            occ = sum(1 for j, te in waiting.items()
+                      if j != i and e["t"] + EPS < te + c["steps"][j]["ivl"])
+            if len(opn) + occ + 1 > k:
+                return ("%d step(s) executing and %d inside their retry interval when an attempt of step %d began with "
+                        "maxActiveRuns=%d (event %d)" % (len(opn), occ, i, k, p))
+            waiting.pop(i, None)
+            if any(q["e"] in ("s", "x") and q["i"] == i for q in evs[p + 1:]):
                 waiting[i] = e["t"]
     return None
 
@@ -406,6 +427,8 @@ def distribution(cases):
             d["retry_exhausted_runs"] += 1
         if any(not s["pre"] for s in c["steps"]):
             d["unmet_precondition_runs"] += 1
+        if any(s.get("cfails") for s in c["steps"]):
+            d["creation_failure_runs"] = d.get("creation_failure_runs", 0) + 1
         if any(s.get("prek") for s in c["steps"]):
             d["backtick_precondition_runs"] = d.get("backtick_precondition_runs", 0) + 1
             if any(k in (4, 6, 7) for s in c["steps"] for k in (s.get("prek") or [])):
